@@ -8,13 +8,13 @@ use std::collections::HashMap;
 use std::time::Duration;
 
 use grenad::verif::SorterState;
-use grenad::{Sorter, SorterBuilder};
+use grenad::Sorter;
 use serde::{Deserialize, Serialize};
 use serde_json::json;
 use vlib::report::{par_for, Acc, Deadline, Report, Tier, Violation};
 
 use crate::common::guarded;
-use crate::sorter_util::{configure, ChunkStats, Concat, SorterCfg, TrackedCreator};
+use crate::sorter_util::{ChunkStats, Concat, SorterCfg, TrackedCreator};
 
 #[derive(Clone, Debug, Serialize, Deserialize)]
 pub struct Case {
@@ -50,9 +50,7 @@ pub struct Run {
 pub fn replay_inserts(cfg: &SorterCfg, sizes: &[usize]) -> Result<Run, String> {
     let creator = TrackedCreator::default();
     let stats = creator.stats.clone();
-    let mut b = SorterBuilder::new(Concat).chunk_creator(creator);
-    configure(cfg, &mut b);
-    let sorter = b.build();
+    let sorter = crate::sorter_util::builder_with(cfg, creator).build();
     let mut run = Run { sorter, stats, volume_since_spill: 0, max_volume: 0 };
     for (i, &sz) in sizes.iter().enumerate() {
         step(cfg, &mut run, i, sz)?;
@@ -257,6 +255,9 @@ pub fn run(tier: Tier) -> i32 {
                 for chunks in (0..=4usize).filter(|c| (*c > 0 || t == 64) && (t < 1000 || tier == Tier::Thorough || *c == 1 || *c == 3)) {
                     let mut c = SorterCfg::scaled(t, initial.max(16), realloc, chunks, false);
                     c.creator = 2;
+                    // both builder orders: every other configuration sets its options before
+                    // `.chunk_creator(..)` rebuilds the builder
+                    c.settings_first = (chunks + initial) % 2 == 1;
                     cfgs.push(c.clone());
                     // the effective budget is the larger of the requested threshold and the
                     // minimum: also request a threshold above the (scaled) minimum
